@@ -1,5 +1,6 @@
 package main
 
 import (
+	_ "verif/internal/props/c14"
 	_ "verif/internal/props/c18"
 )
